@@ -50,6 +50,16 @@ CHECKS = {
                 "docstrings/EBB reference; pause bound n<=6000 (quick) / 48000 (thorough); integer arguments only",
         "technique": "symbolic execution of the Python source with token strings + SMT (linear integer arithmetic) obligations per path, counterexample replay",
     },
+    "C07": {
+        "text": "ebb_serial.query/command executed on symbolic requests (symbolic name letters, so the solver chooses OK-terminated or "
+                "no-OK names) against a port scripted by symbolic variables: e1 empty reads, symbolic data line, e2 empty reads, OK; "
+                "over-long silences; an exception of each caught class at a solver-chosen read; a failing write; no port / no text. "
+                "Proved per path: one write of the request, nothing escapes, query returns text equal to this request's data line "
+                "(or ''), and exactly the reads belonging to the request are consumed (alignment).",
+        "note": "ASCII; e1,e2 bounded (quick [0,3]u[99,102], thorough [0,102]); data line <= 5/6 symbolic chars; induction over request "
+                "sequences is the standard argument from per-request alignment",
+        "technique": "symbolic execution of the Python source on symbolic strings with a solver-scripted fake port + SMT obligations per path, counterexample replay",
+    },
     "C08": {
         "text": "Symbolic execution of clip_segment/clip_code over eight unbounded reals: all feasible loop unrollings "
                 "(0-4 clips) are explored; on every path accept/reject, on-segment, orientation, inside and coverage are "
